@@ -446,7 +446,7 @@ class ChunkRelativeFrames(Case):
 
     def __init__(self, n):
         self.n = n
-        self.tier = "thorough" if n >= 3 else "quick"
+        self.tier = "thorough" if n >= 2 else "quick"
         self.name = f"CDSInterval.chunk_relative_frames[{n} exons]"
         self.call = ("([x.value for x in cds.chunk_relative_frames], [x.value for x in "
                      "CDSInterval.construct_frames_from_location(cds.chunk_relative_location, CDSFrame(fexp))])")
